@@ -126,7 +126,9 @@ class _Tok:
                     break
                 if c == 0x7B:  # '{'
                     break
-                if c == 0x5B:  # '['
+                if c == 0x5B and b[s:p].upper() in (b"BODY", b"BODY.PEEK", b"BINARY", b"BINARY.PEEK", b"BINARY.SIZE"):
+                    # '[' opens a section only after a BODY/BINARY item name;
+                    # elsewhere (flag keywords) it is an ordinary atom character
                     depth = 1
                 elif c == 0x5D:  # ']' closes a resp-code, not ours
                     break
